@@ -402,6 +402,7 @@ func (pool *hostConnPool) Close() {
 	pool.conns = nil
 
 	pool.mu.Unlock()
+	verifYield("pool.close", nil, 0)
 
 	// close the connections
 	for _, conn := range conns {
@@ -430,6 +431,7 @@ func (pool *hostConnPool) fill() {
 
 	// switch from read to write lock
 	pool.mu.RUnlock()
+	verifYield("fill.upgrade", nil, 0)
 	pool.mu.Lock()
 
 	// double check everything since the lock was released
@@ -447,6 +449,7 @@ func (pool *hostConnPool) fill() {
 
 	// allow others to access the pool while filling
 	pool.mu.Unlock()
+	verifYield("fill.filling", nil, 0)
 	// only this goroutine should make calls to fill/empty the pool at this
 	// point until after this routine or its subordinates calls
 	// fillingStopped
@@ -507,6 +510,7 @@ func (pool *hostConnPool) fillingStopped(err error) {
 		time.Sleep(time.Duration(rand.Int31n(100)+31) * time.Millisecond)
 	}
 
+	verifYield("fill.stopping", nil, 0)
 	pool.mu.Lock()
 	pool.filling = false
 	count := len(pool.conns)
@@ -594,6 +598,7 @@ func (pool *hostConnPool) connect() (err error) {
 	}
 
 	// add the Conn to the pool
+	verifYield("connect.dialed", conn, 0)
 	pool.mu.Lock()
 	defer pool.mu.Unlock()
 
@@ -616,6 +621,7 @@ func (pool *hostConnPool) HandleError(conn *Conn, err error, closed bool) {
 
 	// TODO: track the number of errors per host and detect when a host is dead,
 	// then also have something which can detect when a host comes back.
+	verifYield("pool.handleError", conn, 0)
 	pool.mu.Lock()
 	defer pool.mu.Unlock()
 
